@@ -38,39 +38,29 @@ def str_to_num(s: str, fmt: str) -> Any[float, int]:
     if not isinstance(s, str):
         s = str(s)
 
-    sexagesimal_match = re.match(r"^%(\d*)\.(\d+)m$", fmt)
-    if sexagesimal_match:
-        fraction_length = int(sexagesimal_match.groups()[1])
-        assert fraction_length in (
-            3,
-            5,
-            6,
-            8,
-            9,
-        ), f"Invalid sexagesimal number format: {fmt}"
+    # INDI lets a peer send any of the number forms for any property: plain
+    # integer or decimal, or sexagesimal with ":", ";" or blank separators;
+    # the sign applies to the whole value
+    num_match = re.match(
+        r"^([+\-]?)(\d+\.?\d*|\.\d+)"
+        r"(?:[:; ](\d{1,2}(?:\.\d*)?))?(?:[:; ](\d{1,2}(?:\.\d*)?))?$",
+        s.strip(),
+    )
+    if not num_match:
+        raise ValueError("Cannot convert string to number")
+    sign, wholes, minutes, seconds = num_match.groups()
 
-        regexps = {
-            3: r"^(\-?\d+)[:; ](\d{2})$",
-            5: r"^(\-?\d+)[:; ](\d{2}\.\d+)$",
-            6: r"^(\-?\d+)[:; ](\d{2})[:; ](\d{2})$",
-            8: r"^(\-?\d+)[:; ](\d{2})[:; ](\d{2}.\d+)$",
-            9: r"^(\-?\d+)[:; ](\d{2})[:; ](\d{2}.\d+)$",
-        }
+    if minutes is None:
+        if "." in wholes:
+            value = float(wholes)
+        else:
+            value = int(wholes)
+    else:
+        value = float(wholes) + (float(minutes) / 60) + (float(seconds or 0) / 3600)
 
-        num_match = re.match(regexps[fraction_length], s)
-        if not num_match:
-            raise ValueError("Cannot convert string to number")
-        num_match_groups = num_match.groups()
-        wholes = num_match_groups[0]
-        minutes = num_match_groups[1]
-        seconds = num_match_groups[2] if fraction_length in (6, 8, 9) else 0
-
-        return float(wholes) + (float(minutes) / 60) + (float(seconds) / 3600)
-
-    if "." in s:
-        return float(s)
-
-    return int(s)
+    if sign == "-":
+        return -value
+    return value
 
 
 def num_to_str(n: Optional[float], fmt: str) -> Optional[str]:
